@@ -23,7 +23,7 @@ pub fn prop() -> Prop {
         assumptions: vec![
             "the reference layout reader is written from the rustdoc of ImageRaw and of the two DataOrder types",
         ],
-        subs: vec![Sub::tape("images", 28, 300_000, 15_000_000, images)],
+        subs: vec![Sub::tape("images", 28, 600_000, 30_000_000, images)],
     }
 }
 
@@ -99,7 +99,7 @@ where
             _ => ((i as u32).wrapping_add(x) % 251) as u8 ^ 0x5a,
         })
         .collect();
-    let offset = Point::new(d.i(-9, 9), d.i(-9, 9));
+    let offset = Point::new(d.i(-9, 9), d.i(-9, 9)) + crate::gen::far_offset(d);
     let centered = d.ratio(1, 5);
     let nsub = match d.u(0, 4) {
         0 | 1 => 0,
